@@ -13,7 +13,7 @@ import contextlib
 import io
 import random
 
-from mido import MidiFile
+from mido import Message, MidiFile
 
 from .. import genfile
 from ..ref import meta as rmeta
@@ -124,7 +124,28 @@ def write_case(ctx, seed):
     rng = random.Random(seed)
     fmt, div, tracks = genfile.rand_file_events(rng, EOT_MODES)
     case = lambda: {'kind': 'write', 'seed': seed}  # noqa: E731
+    loaded_at = []
+    if rng.random() < 0.3:
+        # messages of two origins in one track: some came out of a decoder (a file, a port), some were constructed - and
+        # next to a decoded one sits a constructed one with the same numbers in other roles (channel <-> data bytes)
+        tracks = [list(t) for t in tracks]
+        for ti, evs in enumerate(tracks):
+            i = 0
+            while i < len(evs):
+                e = evs[i]
+                if e[0] == 'ch' and rng.random() < 0.5:
+                    loaded_at.append((ti, i))
+                    d = list(e[3])
+                    c = e[2] & 0x0F
+                    if d and d[0] < 16 and rng.random() < 0.7:
+                        twin = ('ch', e[1], (e[2] & 0xF0) | d[0], (d[1:] + [c]))
+                        evs.insert(i + 1, twin)
+                        i += 1
+                i += 1
     mid = genfile.midifile_of(fmt, div, tracks)
+    for ti, i in loaded_at:
+        m = mid.tracks[ti][i]
+        mid.tracks[ti][i] = Message.from_bytes(m.bytes(), time=m.time)
     if rng.random() < 0.15:
         # the same values as bool / int subclass / IntEnum member / numpy-like Integral
         from .. import gen
